@@ -4,11 +4,14 @@ import (
 	"bytes"
 	"encoding/json"
 	"fmt"
+	"log/slog"
 	"sync"
 	"sync/atomic"
 
 	"verif/internal/ev"
 	"verif/ref"
+
+	"github.com/goblimey/go-ntrip/rtcm/handler"
 )
 
 func init() {
@@ -24,6 +27,26 @@ func init() {
 		fmt.Sscanf(k.Stream, "%x", &s)
 		kind, out := c02Stream(s)
 		return kind != "", fmt.Sprintf("%s delivered=%v", kind, showDelivered(out))
+	}
+	Replayers["streams-one-handler"] = func(c json.RawMessage) (bool, string) {
+		var k struct {
+			Streams []string `json:"streams_through_one_handler"`
+		}
+		json.Unmarshal(c, &k)
+		h := handler.New(frameStart, slog.LevelInfo)
+		for i, hx := range k.Streams {
+			var s []byte
+			fmt.Sscanf(hx, "%x", &s)
+			ms, fault := implHandleMessages(h, s)
+			var got []delivered
+			for _, m := range ms {
+				got = append(got, delivered{Type: m.MessageType, Raw: m.RawData})
+			}
+			if want := ref.Segment(s); fault != "" || !segsEqual(got, want) {
+				return true, fmt.Sprintf("stream %d: fault=%q delivered=%v expected=%v", i+1, fault, showDelivered(got), showSegs(want))
+			}
+		}
+		return false, "every stream segmented as if it were the first"
 	}
 	Replayers["stream-expected"] = func(c json.RawMessage) (bool, string) {
 		var k struct {
@@ -293,7 +316,7 @@ func classifyMismatch(got []delivered, want []ref.Seg) string {
 // C03: valid frames and D3-free junk are delivered exactly as constructed.
 func C03(r *ev.Run) {
 	thorough := r.Tier == "thorough"
-	r.Rule = "all sequences of <=3 (quick) / <=4 (thorough) segments from 16 valid frames (11 types, payload lengths 1,2,4,5,9,12,19,22,63,64,211,255,256,1022,1023, payload/CRC/length byte containing 0xD3) and 5 D3-free junk runs, each optionally followed by a frame truncated at every byte position; plus every payload length 1..1023 alone, between junk and back-to-back; plus a frame after, and frames round, a 0xD3-free run of every length 1..300 and round every power of two up to 64K (thorough: every length to 8300); expected output is the constructed segment list (adjacent junk merged). Non-trivial = contains at least one valid frame; distinct = distinct streams"
+	r.Rule = "all sequences of <=3 (quick) / <=4 (thorough) segments from 16 valid frames (11 types, payload lengths 1,2,4,5,9,12,19,22,63,64,211,255,256,1022,1023, payload/CRC/length byte containing 0xD3) and 5 D3-free junk runs, each optionally followed by a frame truncated at every byte position; plus every payload length 1..1023 alone, between junk and back-to-back; plus a frame after, and frames round, a 0xD3-free run of every length 1..300 and round every power of two up to 64K (thorough: every length to 8300); expected output is the constructed segment list (adjacent junk merged); plus three consecutive streams through ONE handler with the real HandleMessages (fresh channels each time): a first stream ending at a frame boundary, in junk, or in a frame truncated after 1,2,3,4,5,6,10,n-3,n-1 bytes, then every sequence of <=2 menu segments, then frame+junk+frame, each stream segmented as if it were the first. Non-trivial = contains at least one valid frame; distinct = distinct streams"
 	r.Assumptions = []string{"precondition of C03 holds by construction (junk has no 0xD3 byte; frames built by the reference encoder)"}
 	frames, junk := c03Menu(thorough)
 	menu := append(append([]namedSeg{}, frames...), junk...)
@@ -390,8 +413,79 @@ func C03(r *ev.Run) {
 		check([]namedSeg{frames[3], jr, frames[0]}, nil)
 	})
 	r.Extra["junk_run_lengths_swept"] = len(jl)
+	// several streams through ONE handler with the real HandleMessages (an
+	// application that reconnects keeps its handler): however the earlier stream
+	// ended, the next is segmented as if it were the first
+	toDelivered := func(ms []handler.Message) []delivered {
+		var out []delivered
+		for _, m := range ms {
+			out = append(out, delivered{Type: m.MessageType, Raw: m.RawData, Err: m.ErrorMessage})
+		}
+		return out
+	}
+	type ending struct {
+		name  string
+		parts []namedSeg
+		tail  []byte
+	}
+	endings := []ending{{"empty", nil, nil}, {"frame", []namedSeg{frames[0]}, nil}, {"frame+junk", []namedSeg{frames[0], junk[2]}, nil}, {"junk", []namedSeg{junk[0]}, nil}}
+	tf := ref.TypedFrame(1077, 22, validTimestampFill)
+	for _, cut := range []int{1, 2, 3, 4, 5, 6, 10, len(tf) - 3, len(tf) - 1} {
+		endings = append(endings, ending{fmt.Sprintf("frame+truncated%d", cut), []namedSeg{frames[0]}, tf[:cut]})
+		endings = append(endings, ending{fmt.Sprintf("truncated%d", cut), nil, tf[:cut]})
+	}
+	var seconds [][]namedSeg
+	sequences(len(menu), 2, func(idx []int) {
+		var ps []namedSeg
+		for _, k := range idx {
+			ps = append(ps, menu[k])
+		}
+		seconds = append(seconds, ps)
+	})
+	parallelFor(len(endings), func(ei int) {
+		e := endings[ei]
+		for _, second := range seconds {
+			h := handler.New(frameStart, slog.LevelInfo)
+			streams := []ending{e, {"second", second, nil}, {"third", []namedSeg{frames[1], junk[1], frames[0]}, nil}}
+			for si, st := range streams {
+				var in []byte
+				var names []string
+				for _, p := range st.parts {
+					in = append(in, p.Bytes...)
+					names = append(names, p.Name)
+				}
+				in = append(in, st.tail...)
+				want := expectedSegs(st.parts, st.tail)
+				ms, fault := implHandleMessages(h, in)
+				got := toDelivered(ms)
+				r.Count(1, 1, 1, 1)
+				atomic.AddInt64(&r.DistinctN, 1)
+				kind := ""
+				if fault != "" {
+					kind = "stream " + fault
+				} else if !segsEqual(got, want) {
+					kind = classifyMismatch(got, want)
+				}
+				if kind != "" {
+					r.Violate(ev.Violation{Fingerprint: fmt.Sprintf("C03 stream-%d-on-one-handler %s", si+1, kind), What: fmt.Sprintf("%s in stream %d %v after a first stream ending in %s", kind, si+1, names, e.name),
+						Case:     map[string]interface{}{"streams_through_one_handler": []string{ev.FullHex(streamBytes(streams[0].parts, streams[0].tail)), ev.FullHex(streamBytes(streams[1].parts, nil)), ev.FullHex(streamBytes(streams[2].parts, nil))}, "failing_stream": si + 1},
+						Expected: showSegs(want), Actual: showDelivered(got), ReplayKind: "streams-one-handler"})
+					break
+				}
+			}
+		}
+	})
+	r.Extra["multi_stream_cases"] = len(endings) * len(seconds)
 	r.Sample(map[string]interface{}{"segments": []string{"j7", "FcrcD3", "F0/1"}, "stream": ev.FullHex(append(append(append([]byte{}, junk[2].Bytes...), frames[12].Bytes...), frames[2].Bytes...))})
 	r.Sample(map[string]interface{}{"segments": []string{"F1005/19"}, "truncated_tail_of": "F4095/2", "cut": 5})
+}
+
+func streamBytes(parts []namedSeg, tail []byte) []byte {
+	var b []byte
+	for _, p := range parts {
+		b = append(b, p.Bytes...)
+	}
+	return append(b, tail...)
 }
 
 // C12: a frame corrupted in payload/CRC is discarded alone.
